@@ -4,6 +4,7 @@ use std::sync::Mutex;
 
 use crate::e2::{run_e2_dyn, E2Case, E2Lenses};
 use crate::engine::*;
+use crate::fail;
 use crate::gen::{self, E2Bias};
 
 pub struct E2Part {
@@ -96,6 +97,19 @@ pub fn run_e2_part(ctx: &Ctx, acc: &Mutex<Acc>, part: &E2Part) -> Option<Violati
     campaign(ctx, acc, part.name, "E2", cases, 60, |_shard| gen::e2_case(&part.bias), test)
 }
 
+pub const C03_BULK_RULE: &str = "bulk-range part: 100-2600 extra keys are put, then ONE remove_range covering all keys (a large multi-key record), then another put; every kill cut from the start of the range removal on is recovered and judged with the same oracle (the removal must be all-or-nothing however it is logged); non-trivial = cut inside the range removal; distinct by (case, cut)";
+
+pub fn run_c03_bulk(ctx: &Ctx, acc: &Mutex<Acc>) -> Option<Violation> {
+    crate::proc::ensure_shim();
+    let cases = ctx.tier.scale(1, 6);
+    let lenses = E2Lenses { recover: true, ..Default::default() };
+    campaign(ctx, acc, "crash-kill-bulk-range", "E2", cases, 10, |_shard| gen::e2_bulk_case(), move |case: &E2Case| {
+        let mut m = run_e2_dyn(case, lenses)?;
+        m.class("bulk_range_case");
+        Ok(m)
+    })
+}
+
 pub fn replay_e2(prop: &str, case: serde_json::Value) -> R<CaseMeta> {
     let case: E2Case = serde_json::from_value(case).expect("harness: bad E2 replay case");
     let part = part_for(prop, Tier::Quick);
@@ -126,4 +140,152 @@ pub fn run_c14(ctx: &Ctx, acc: &Mutex<Acc>) -> Option<Violation> {
 pub fn replay_c14(case: serde_json::Value) -> R<CaseMeta> {
     let case: FaultCase = serde_json::from_value(case).expect("harness: bad fault replay case");
     run_fault_dyn(&case, &|_s: &str| false)
+}
+
+// ---------------------------------------------------------------------------------------------
+// C06: shard directories on another filesystem (unusual configuration)
+
+pub const C06_XDEV_RULE: &str = "cross-filesystem shard part: before the store is used, the first-level CAS directories of generated contents are planted as symlinks to a directory on ANOTHER filesystem (the rename from staging/ then fails with EXDEV); a traced worker runs puts/re-puts/removes of those contents; the store may refuse such a put, but the trace must never contain an open with write access, a write or a truncate of a path under cas/, and every file visible under cas/ afterwards must hash to its path; skipped (counted) when the sandbox has no second writable filesystem. non-trivial = a put whose blob path crosses the filesystem boundary; distinct by case hash";
+
+#[derive(Clone, Debug, serde::Serialize, serde::Deserialize)]
+pub struct XdevCase {
+    pub contents: Vec<u8>,
+    pub ops: Vec<crate::seq::Step>,
+}
+
+fn other_fs_dir() -> Option<std::path::PathBuf> {
+    use std::os::unix::fs::MetadataExt;
+    let here = std::fs::metadata(crate::common::scratch_base()).ok()?.dev();
+    for cand in [std::env::var("VERIF_DIR").unwrap_or_else(|_| "/verif".into()) + "/.scratch", "/var/tmp".to_string(), "/tmp".to_string()] {
+        let p = std::path::PathBuf::from(&cand);
+        if std::fs::create_dir_all(&p).is_err() {
+            continue;
+        }
+        if let Ok(m) = std::fs::metadata(&p) {
+            if m.dev() != here {
+                return Some(p);
+            }
+        }
+    }
+    None
+}
+
+fn xdev_run(case: &XdevCase) -> R<CaseMeta> {
+    use crate::common::*;
+    use crate::fsmodel::{Ev, O_ACCMODE};
+    use crate::proc::{run_worker, Script, ShimMode};
+    let mut m = CaseMeta { evals: 1, ..Default::default() };
+    let Some(other) = other_fs_dir() else {
+        m.class("xdev_unavailable");
+        m.discarded = true;
+        return Ok(m);
+    };
+    let scratch = Scratch::new("xdev");
+    let db = scratch.db();
+    let work = scratch.path.join("work");
+    std::fs::create_dir_all(&work).expect("harness: mkdir");
+    let remote = other.join(format!("cassverif-xdev-{}-{}", std::process::id(), hash_json(case) % 1_000_000));
+    let _ = std::fs::remove_dir_all(&remote);
+    std::fs::create_dir_all(&remote).expect("harness: mkdir remote");
+    struct Rm(std::path::PathBuf);
+    impl Drop for Rm {
+        fn drop(&mut self) {
+            let _ = std::fs::remove_dir_all(&self.0);
+        }
+    }
+    let _rm = Rm(remote.clone());
+    std::fs::create_dir_all(db.join("cas")).expect("harness: mkdir cas");
+    let mut crossing = 0;
+    for c in &case.contents {
+        let h = b3(&pool_content(*c as usize));
+        let l1 = &hexs(&h)[..2];
+        let link = db.join("cas").join(l1);
+        if link.exists() {
+            continue;
+        }
+        std::fs::create_dir_all(remote.join(l1)).expect("harness: mkdir remote shard");
+        std::os::unix::fs::symlink(remote.join(l1), &link).expect("harness: symlink");
+        crossing += 1;
+    }
+    let script = Script { cfg: crate::seq::Cfg { kt: "String".into(), n: 100, asyn: false, scan: true, verify: false }, asyn: false, cleanup: false, ops: case.ops.clone(), dump: false, pre_create: false };
+    let run = run_worker(&db, &work, "xdev", &script, ShimMode::Trace, std::time::Duration::from_secs(60));
+    let root = db.to_string_lossy().to_string();
+    let mut fds: std::collections::HashMap<i32, String> = std::collections::HashMap::new();
+    for e in &run.trace {
+        match &e.ev {
+            Ev::Open { ret, flags, path } if *ret >= 0 => {
+                let rel = path.strip_prefix(&root).unwrap_or(path).to_string();
+                if rel.starts_with("/cas/") && (flags & O_ACCMODE) != 0 {
+                    fail!("cashash/write-open-under-cas", "a file under cas/ was opened with write access: {rel} (flags {flags:x}) — the blob becomes visible before it is complete");
+                }
+                fds.insert(*ret as i32, rel);
+            }
+            Ev::Write { fd, ret, .. } if *ret > 0 => {
+                if fds.get(fd).is_some_and(|p| p.starts_with("/cas/")) {
+                    fail!("cashash/write-under-cas", "a file under cas/ was written in place");
+                }
+            }
+            Ev::Trunc { fd, ret, .. } if *ret == 0 => {
+                if fds.get(fd).is_some_and(|p| p.starts_with("/cas/")) {
+                    fail!("cashash/truncate-under-cas", "a file under cas/ was truncated");
+                }
+            }
+            Ev::Close { fd } => {
+                fds.remove(fd);
+            }
+            Ev::Unmodelled(w) => fail!("cashash/unmodelled-write-path", "the store used {w} on a database file"),
+            _ => {}
+        }
+    }
+    if run.out.ops.iter().any(|o| o.status == "panic") {
+        fail!("xdev/panic", "an operation panicked on a store with a cross-filesystem shard");
+    }
+    // every file visible under cas/ (following the planted symlinks) hashes to its path
+    fn walk(base: &std::path::Path, dir: &std::path::Path, out: &mut Vec<(String, Vec<u8>)>) {
+        let Ok(rd) = std::fs::read_dir(dir) else { return };
+        for e in rd.flatten() {
+            let p = e.path();
+            let Ok(md) = std::fs::metadata(&p) else { continue };
+            if md.is_dir() {
+                walk(base, &p, out);
+            } else {
+                out.push((p.strip_prefix(base).unwrap().to_string_lossy().to_string(), std::fs::read(&p).unwrap_or_default()));
+            }
+        }
+    }
+    let mut files = Vec::new();
+    walk(&db.join("cas"), &db.join("cas"), &mut files);
+    for (rel, data) in files {
+        match is_canonical_blob_rel(&rel) {
+            Some(h) if b3(&data) == h => {}
+            _ => fail!("cashash/content-mismatch", "cas/{rel} holds {} bytes that do not hash to its path", data.len()),
+        }
+    }
+    let failed = run.out.ops.iter().filter(|o| o.status == "err").count();
+    m.classn("xdev_puts_refused", failed as u64);
+    if crossing > 0 {
+        m.nontrivial.push(hash_json(case));
+        m.class("xdev_shard_planted");
+    }
+    Ok(m)
+}
+
+pub fn run_c06_xdev(ctx: &Ctx, acc: &Mutex<Acc>) -> Option<Violation> {
+    use proptest::prelude::*;
+    crate::proc::ensure_shim();
+    let cases = ctx.tier.scale(1, 6);
+    let strat = || {
+        (proptest::collection::vec(0u8..9, 1..4), proptest::collection::vec((0u8..4, 0u8..9, any::<bool>()), 2..8)).prop_map(|(contents, raw)| {
+            let ops = raw
+                .into_iter()
+                .map(|(k, c, rm)| if rm { crate::seq::Step::Remove { k } } else { crate::seq::Step::Put { k, c: crate::common::C::P(c), cuts: vec![5] } })
+                .collect();
+            XdevCase { contents, ops }
+        })
+    };
+    campaign(ctx, acc, "xdev-shard", "XDEV", cases, 20, |_| strat(), xdev_run)
+}
+
+pub fn replay_xdev(case: serde_json::Value) -> R<CaseMeta> {
+    xdev_run(&serde_json::from_value(case).expect("harness: bad XDEV case"))
 }
